@@ -108,16 +108,8 @@ func (w *World) checkForeign(at string) {
 		return
 	}
 	if f := foreignText(w.Kern); f != w.foreign0 {
-		// galaxy's clean-up of stale objects goes by name prefix ("GLX" for sets, "GLX-PLCY" for chains), which is
-		// wider than its own naming scheme: the two known casualties get their own keys
 		key := "foreign-modified"
 		d := firstDiffLine(w.foreign0, f)
-		switch {
-		case strings.Contains(d, "\"create GLX") || strings.Contains(d, "\"add GLX"):
-			key = "foreign-set-with-glx-prefix-destroyed"
-		case strings.Contains(d, "\":GLX-PLCY") || strings.Contains(d, "\"-A GLX-PLCY"):
-			key = "foreign-chain-with-glx-plcy-prefix-deleted"
-		}
 		w.fail("C15.foreign-modified", key, "foreign chains/rules/sets changed by %s: %s", at, d)
 	}
 }
